@@ -264,7 +264,11 @@ def _call_arguments_with_repr(col, rule="C06.R2"):
         good, bad = [], []
         for r in rets:
             seen_in_repr = set()
-            for t in S.subterms(r.value):
+            try:
+                whole = S.norm_str(r.value)
+            except Exception:
+                whole = r.value
+            for t in list(S.subterms(r.value)) + list(S.subterms(whole)):
                 if S.is_call_of(t, ("glob", "repr")) and len(t[2]) == 1 and t[2][0] in forms:
                     good.append(t)
                     seen_in_repr.add(id(t[2][0]))
